@@ -67,20 +67,50 @@ def run_case(case):
              'other': L.emit_pipeline(case['other'], turn)}
     vstate.reset(texts, pv.Canon())
     loader_cache.clear_pipes()
+    from pypyr.cache.filecache import file_cache
+    file_cache.clear()
+    # the pipelines are served by the in-memory loader, or - file_loader - written to a temp dir and
+    # found, parsed and cached by pypyr's REAL file loader under two paths that differ only in case
+    names, loader_name, tmpdir = {'main': 'main', 'other': 'other'}, 'vloader', None
+    fl = case.get('file_loader') if not turn else None
+    if fl:
+        import os
+        import sys
+        import tempfile
+        tmpdir = tempfile.mkdtemp(prefix='c12-')
+        rel = {'name': ('Release', 'release'), 'dir': ('Ops/build', 'ops/build'),
+               'both': ('Jobs/Nightly', 'jobs/nightly')}[fl.get('layout', 'name')]
+        paths = {}
+        for p, r in zip(('main', 'other'), rel):
+            paths[p] = os.path.join(tmpdir, r + '.yaml')
+            os.makedirs(os.path.dirname(paths[p]), exist_ok=True)
+        for p in ('main', 'other'):
+            with open(paths[p], 'w') as f:
+                f.write(texts[p])
+        if os.path.samefile(paths['main'], paths['other']):     # a case-insensitive file system
+            import shutil
+            shutil.rmtree(tmpdir, ignore_errors=True)
+            tmpdir = None
+        else:
+            names = {p: paths[p][:-len('.yaml')] for p in paths}
+            loader_name = None
     old_vars, old_shortcuts = config.vars, config.shortcuts
     dict_in = {k: to_py(v) for k, v in case['dict_in']}
     config.vars = make_vars(case)
     config.shortcuts = {}
     if case.get('shortcut'):
-        config.shortcuts = {'c12sc': {'pipeline_name': 'main', 'loader': 'vloader', 'args': copy.deepcopy(dict_in)}}
+        config.shortcuts = {'c12sc': {'pipeline_name': names['main'], 'args': copy.deepcopy(dict_in)}}
+        if loader_name:
+            config.shortcuts['c12sc']['loader'] = loader_name
         if case.get('sc_parser_args') is not None:
             config.shortcuts['c12sc']['parser_args'] = list(case['sc_parser_args'])
+    fresh_shortcuts = copy.deepcopy(config.shortcuts)
     S.TURN.update(active=False, schedule=[], pos=0, holder=None)
     S.TURN['dead'] = set()
     runner.Context = RecordingContext
     try:
-        loader = loader_cache.get_pype_loader('vloader')
-        defs = {p: loader.get_pipeline(p, None) for p in ('main', 'other')}     # load ONCE
+        loader = loader_cache.get_pype_loader(loader_name)
+        defs = {p: loader.get_pipeline(names[p], None) for p in ('main', 'other')}     # load ONCE
 
         def live():
             return {'main': defs['main'].pipeline, 'other': defs['other'].pipeline,
@@ -109,7 +139,7 @@ def run_case(case):
                 if case.get('shortcut') and pname == 'main' and tid is None:
                     ctx = runner.run('c12sc', args_in=args)
                 else:
-                    ctx = runner.run(pname, args_in=args, dict_in=d, loader='vloader')
+                    ctx = runner.run(names[pname], args_in=args, dict_in=d, loader=loader_name)
                 outcome = None
                 final = S.snapshot(ctx)
             except Exception as e:      # the run's own failure is an observation
@@ -138,7 +168,18 @@ def run_case(case):
                 except (KeyError, IndexError, TypeError) as e:
                     r['defs'] = [{'obj': f'root lost: {e!r}'}]
                 obs['runs'].append(r)
-                obs['same_pipeline_object'] &= loader.get_pipeline(pname, None) is defs[pname]
+                obs['same_pipeline_object'] &= loader.get_pipeline(names[pname], None) is defs[pname]
+            # the same pipelines in the OTHER order relative to each other, in the same process,
+            # from freshly loaded definitions and configuration
+            loader_cache.clear_pipes()
+            file_cache.clear()
+            config.vars = make_vars(case)
+            config.shortcuts = copy.deepcopy(fresh_shortcuts)
+            loader = loader_cache.get_pype_loader(loader_name)
+            for p in ('other', 'main'):
+                defs[p] = loader.get_pipeline(names[p], None)
+            obs['reverse_loaded_ok'] = not S.changed()
+            obs['reverse'] = [one_run(p) for p in ('other', 'main', 'other')]
         else:
             # solo results first (fresh cache state is not needed: the generator only makes
             # read-only pairs here; a mutation shows up in changed_after)
@@ -177,6 +218,12 @@ def run_case(case):
         # a final outcome for errors: context of a failed run is not returned by run(); fine
         return obs
     finally:
+        if tmpdir:
+            import shutil
+            import sys
+            shutil.rmtree(tmpdir, ignore_errors=True)
+            sys.path[:] = [x for x in sys.path if not str(x).startswith(tmpdir)]
+        file_cache.clear()
         runner.Context = Context
         config.vars, config.shortcuts = old_vars, old_shortcuts
         loader_cache.clear_pipes()
